@@ -577,7 +577,7 @@ package libinjection
 //@ func (*sqliToken).assign
 //@   requires 0 <= length && min(length, 31) <= len(value)
 //@   modifies t.category, t.pos, t.len, t.val
-//@   ensures  [C01 C16 C18] @assign t.category == tokenType && t.pos == pos && t.len == min(length, 31) && aliases(t.val, value[:min(length, 31)])
+//@   ensures  [C01 C16 C18 C06] @assign t.category == tokenType && t.pos == pos && t.len == min(length, 31) && aliases(t.val, value[:min(length, 31)])
 //@   cost     <= 1
 
 //@ func (*sqliToken).isUnaryOp
@@ -602,6 +602,7 @@ package libinjection
 //@   ensures  [C01] @fn2 result == sqliTokenTypeFunction ==> len(key) >= 2
 //@   ensures  [C01 C16] @nonempty result != 0 ==> len(key) >= 1
 //@   ensures  [C01 C08] @nocomment result != sqliTokenTypeComment
+//@   ensures  [C06] @reference_ascii_fold (exists j in [0, len(key)): key[j] >= 128) ==> result == 0
 //@   ensures  [C01] @fp3 result == sqliTokenTypeFingerprint && len(key) == 3 && key[0] < 128 && key[1] < 128 && key[2] < 128 ==> up(key[2]) == 'C' || up(key[2]) == 'U'
 //@   cost     <= 4 * len(key) + 6
 
@@ -617,7 +618,7 @@ package libinjection
 //@       ((firstAbs(a, i, hi, d) + 1 < hi && sel(a, firstAbs(a, i, hi, d) + 1) == d) ? scanEnd(a, lo, firstAbs(a, i, hi, d) + 2, hi, d) : firstAbs(a, i, hi, d)))
 //@ func isBackslashEscaped
 //@   modifies nothing
-//@   ensures  [C18] @parity result <==> odd(bsRunA(arr(str), off(str), off(str) + len(str)))
+//@   ensures  [C18 C06] @parity result <==> odd(bsRunA(arr(str), off(str), off(str) + len(str)))
 //@   cost     <= bsRunA(arr(str), off(str), off(str) + len(str)) + 2
 //@   loop 1 invariant [C18 C09] count == len(str) - 1 - i && (forall k in [i + 1, len(str)): str[k] == '\\')
 //@   loop 1 invariant [C09] $cost <= count
@@ -653,14 +654,14 @@ package libinjection
 //@      t.strOpen == (offset > 0 ? d : 0) && t.strClose == (coreEnd(s, pos, offset, d) < len(s) ? d : 0) &&
 //@      r == (coreEnd(s, pos, offset, d) < len(s) ? coreEnd(s, pos, offset, d) + 1 : len(s))
 //@ func (*sqliToken).parseStringCore
-//@   ensures  [C18] @first_terminator corePost(t, s, pos, offset, delimiter, result)
+//@   ensures  [C18 C06] @first_terminator corePost(t, s, pos, offset, delimiter, result)
 //@   loop 1 invariant [C18] scanEnd(arr(s), off(s) + pos + offset, off(s) + pos + offset, off(s) + len(s), delimiter) == scanEnd(arr(s), off(s) + pos + offset, off(str), off(s) + len(s), delimiter)
 //@   loop 1 unfold scanEnd(arr(s), off(s) + pos + offset, off(str), off(s) + len(s), delimiter)
 //@   requires length == len(s) && 0 <= pos && 0 <= offset && pos + offset <= len(s)
 //@   modifies t.category, t.pos, t.len, t.val, t.strOpen, t.strClose
-//@   ensures  [C01 C16] @token t.category == sqliTokenTypeString && t.pos == pos + offset && 0 <= t.len && t.len <= 31 && aliases(t.val, s[pos+offset : pos+offset+t.len])
-//@   ensures  [C01 C16] @range pos + offset <= result && result <= length && t.pos + t.len <= result && (pos + offset < length ==> pos + offset < result)
-//@   ensures  [C01 C16] @marks t.strOpen == (offset > 0 ? delimiter : 0) && (t.strClose == 0 || t.strClose == delimiter)
+//@   ensures  [C01 C16 C06] @token t.category == sqliTokenTypeString && t.pos == pos + offset && 0 <= t.len && t.len <= 31 && aliases(t.val, s[pos+offset : pos+offset+t.len])
+//@   ensures  [C01 C16 C06] @range pos + offset <= result && result <= length && t.pos + t.len <= result && (pos + offset < length ==> pos + offset < result)
+//@   ensures  [C01 C16 C06] @marks t.strOpen == (offset > 0 ? delimiter : 0) && (t.strClose == 0 || t.strClose == delimiter)
 //@   loop 1 invariant suffixOf(str, s) && off(str) >= off(s) + pos + offset
 //@   loop 1 invariant t.strOpen == (offset > 0 ? delimiter : 0)
 //@   loop 1 decreases len(str)
@@ -671,15 +672,15 @@ package libinjection
 //@ func parseEolComment
 //@   requires wfS(s) && s.pos < s.length && (s.input[s.pos] == '#' || (s.input[s.pos] == '-' && s.pos + 1 < s.length && s.input[s.pos+1] == '-'))
 //@   modifies s.current.category, s.current.pos, s.current.len, s.current.val
-//@   ensures  [C01 C16] @lex lexOK(s, result) && s.current.category == sqliTokenTypeComment && s.current.pos == old(s.pos)
+//@   ensures  [C01 C16 C06] @lex lexOK(s, result) && s.current.category == sqliTokenTypeComment && s.current.pos == old(s.pos)
 //@   cost     <= (result - old(s.pos)) + 8
 
 //@ spec dd2At(s *sqliState, k int) bool = k + 1 < s.length && s.input[k] == '$' && s.input[k+1] == '$'
 //@ func parseMoney
 //@   requires wfS(s) && s.pos < s.length && s.input[s.pos] == '$'
 //@   modifies s.current.*
-//@   ensures  [C01 C16] @lex lexOK(s, result)
-//@   ensures  [C18] @dollar2 let p = old(s.pos) in (p + 1 < s.length && s.input[p+1] == '$') ==>
+//@   ensures  [C01 C16 C06] @lex lexOK(s, result)
+//@   ensures  [C18 C06] @dollar2 let p = old(s.pos) in (p + 1 < s.length && s.input[p+1] == '$') ==>
 //@                 s.current.category == sqliTokenTypeString && s.current.strOpen == '$' && s.current.pos == p + 2 &&
 //@                 (s.current.strClose == '$' ==> dd2At(s, result - 2) && p + 2 <= result - 2 && (forall k in [p + 2, result - 2): !dd2At(s, k)) && s.current.len == min(result - 2 - (p + 2), 31)) &&
 //@                 (s.current.strClose != '$' ==> s.current.strClose == 0 && result == s.length && (forall k in [p + 2, s.length): !dd2At(s, k)) && s.current.len == min(s.length - (p + 2), 31))
@@ -687,7 +688,7 @@ package libinjection
 //@ func parseOther
 //@   requires wfS(s) && s.pos < s.length
 //@   modifies s.current.category, s.current.pos, s.current.len, s.current.val
-//@   ensures  [C01 C16] @lex lexOK(s, result) && result == old(s.pos) + 1
+//@   ensures  [C01 C16 C06] @lex lexOK(s, result) && result == old(s.pos) + 1
 //@   cost     <= 4
 
 //@ func parseWhite
@@ -699,58 +700,58 @@ package libinjection
 //@ func parseOperator1
 //@   requires wfS(s) && s.pos < s.length
 //@   modifies s.current.category, s.current.pos, s.current.len, s.current.val
-//@   ensures  [C01 C16] @lex lexOK(s, result) && result == old(s.pos) + 1 && s.current.category == sqliTokenTypeOperator
+//@   ensures  [C01 C16 C06] @lex lexOK(s, result) && result == old(s.pos) + 1 && s.current.category == sqliTokenTypeOperator
 //@   cost     <= 4
 
 //@ func parseByte
 //@   requires wfS(s) && s.pos < s.length && s.input[s.pos] in {'(', ')', ',', ';', '{', '}'}
 //@   modifies s.current.category, s.current.pos, s.current.len, s.current.val
-//@   ensures  [C01 C16] @lex lexOK(s, result) && result == old(s.pos) + 1
+//@   ensures  [C01 C16 C06] @lex lexOK(s, result) && result == old(s.pos) + 1
 //@   cost     <= 4
 
 //@ func parseHash
 //@   requires wfS(s) && s.pos < s.length && s.input[s.pos] == '#' && 0 <= s.statsCommentHash && s.statsCommentHash <= 2 * s.pos
 //@   modifies s.current.category, s.current.pos, s.current.len, s.current.val, s.statsCommentHash
-//@   ensures  [C01 C16] @lex lexOK(s, result)
-//@   ensures  [C01 C12] @stats s.statsCommentHash == old(s.statsCommentHash) + ((s.flags & sqliFlagSQLMysql) != 0 ? 2 : 1)
+//@   ensures  [C01 C16 C06] @lex lexOK(s, result)
+//@   ensures  [C01 C12 C06] @stats s.statsCommentHash == old(s.statsCommentHash) + ((s.flags & sqliFlagSQLMysql) != 0 ? 2 : 1)
 //@   cost     <= (result - old(s.pos)) + 12
 
 //@ func parseDash
 //@   requires wfS(s) && s.pos < s.length && s.input[s.pos] == '-' && 0 <= s.statsCommentDDX && s.statsCommentDDX <= s.pos
 //@   modifies s.current.category, s.current.pos, s.current.len, s.current.val, s.statsCommentDDX
-//@   ensures  [C01 C16] @lex lexOK(s, result)
-//@   ensures  [C01 C12] @stats old(s.statsCommentDDX) <= s.statsCommentDDX && s.statsCommentDDX <= old(s.statsCommentDDX) + 1
+//@   ensures  [C01 C16 C06] @lex lexOK(s, result)
+//@   ensures  [C01 C12 C06] @stats old(s.statsCommentDDX) <= s.statsCommentDDX && s.statsCommentDDX <= old(s.statsCommentDDX) + 1
 //@   cost     <= (result - old(s.pos)) + 12
 
 //@ func parseSlash
 //@   requires wfS(s) && s.pos < s.length
 //@   modifies s.current.category, s.current.pos, s.current.len, s.current.val
-//@   ensures  [C01 C16] @lex lexOK(s, result)
+//@   ensures  [C01 C16 C06] @lex lexOK(s, result)
 //@   cost     <= 3 * (result - old(s.pos)) + 24
 
 //@ func parseBackSlash
 //@   requires wfS(s) && s.pos < s.length
 //@   modifies s.current.category, s.current.pos, s.current.len, s.current.val
-//@   ensures  [C01 C16] @lex lexOK(s, result)
+//@   ensures  [C01 C16 C06] @lex lexOK(s, result)
 //@   cost     <= 4
 
 //@ func parseOperator2
 //@   requires wfS(s) && s.pos < s.length
 //@   modifies s.current.category, s.current.pos, s.current.len, s.current.val
-//@   ensures  [C01 C16] @lex lexOK(s, result)
+//@   ensures  [C01 C16 C06] @lex lexOK(s, result)
 //@   cost     <= 40
 
 //@ func parseString
 //@   requires wfS(s) && s.pos < s.length && (s.input[s.pos] == '\'' || s.input[s.pos] == '"')
 //@   modifies s.current.category, s.current.pos, s.current.len, s.current.val, s.current.strOpen, s.current.strClose
-//@   ensures  [C01 C16] @lex lexOK(s, result) && s.current.category == sqliTokenTypeString
-//@   ensures  [C18] @core corePost(s.current, s.input, old(s.pos), 1, s.input[old(s.pos)], result)
+//@   ensures  [C01 C16 C06] @lex lexOK(s, result) && s.current.category == sqliTokenTypeString
+//@   ensures  [C18 C06] @core corePost(s.current, s.input, old(s.pos), 1, s.input[old(s.pos)], result)
 //@   cost     <= 7 * (result - old(s.pos)) + 20
 
 //@ func parseWord
 //@   requires wfS(s) && s.pos < s.length && wordAccept(s.input[s.pos]) != 1
 //@   modifies s.current.*
-//@   ensures  [C01 C16] @lex lexOK(s, result)
+//@   ensures  [C01 C16 C06] @lex lexOK(s, result)
 //@   loop 1 invariant 0 <= i && i <= s.current.len && wfS(s) && s.current.category == sqliTokenTypeBareWord && s.current.pos == s.pos &&
 //@                    s.current.len == min(length, 31) && aliases(s.current.val, s.input[s.pos : s.pos + s.current.len]) && 1 <= length && s.pos + length <= s.length
 //@   loop 1 decreases s.current.len - i
@@ -760,15 +761,15 @@ package libinjection
 //@ func parseVar
 //@   requires wfS(s) && s.pos < s.length
 //@   modifies s.current.*, s.pos
-//@   ensures  [C01 C16] @lex wfS(s) && stepOK(s, old(s.pos), result) && s.current.category == sqliTokenTypeVariable
-//@   ensures  [C18] @core let q = old(s.pos) + ((old(s.pos) + 1 < s.length && s.input[old(s.pos)+1] == '@') ? 2 : 1) in
+//@   ensures  [C01 C16 C06] @lex wfS(s) && stepOK(s, old(s.pos), result) && s.current.category == sqliTokenTypeVariable
+//@   ensures  [C18 C06] @core let q = old(s.pos) + ((old(s.pos) + 1 < s.length && s.input[old(s.pos)+1] == '@') ? 2 : 1) in
 //@                 (q < s.length && (s.input[q] == '`' || s.input[q] == '\'' || s.input[q] == '"')) ==> corePost(s.current, s.input, q, 1, s.input[q], result)
 //@   cost     <= 7 * (result - old(s.pos)) + 180
 
 //@ func parseNumber
 //@   requires wfS(s) && s.pos < s.length && ((s.input[s.pos] >= '0' && s.input[s.pos] <= '9') || s.input[s.pos] == '.')
 //@   modifies s.current.category, s.current.pos, s.current.len, s.current.val
-//@   ensures  [C01 C16] @lex lexOK(s, result)
+//@   ensures  [C01 C16 C06] @lex lexOK(s, result)
 //@   loop 1 invariant s.pos <= pos && pos <= s.length && start == s.pos
 //@   loop 1 decreases s.length - pos
 //@   loop 2 invariant s.pos < pos && pos <= s.length && start == s.pos && (pos - start == 1 ==> s.input[start] == '.')
@@ -783,15 +784,15 @@ package libinjection
 //@ func parseTick
 //@   requires wfS(s) && s.pos < s.length
 //@   modifies s.current.category, s.current.pos, s.current.len, s.current.val, s.current.strOpen, s.current.strClose
-//@   ensures  [C01 C16] @lex lexOK(s, result)
-//@   ensures  [C18] @core corePost(s.current, s.input, old(s.pos), 1, '`', result)
+//@   ensures  [C01 C16 C06] @lex lexOK(s, result)
+//@   ensures  [C18 C06] @core corePost(s.current, s.input, old(s.pos), 1, '`', result)
 //@   cost     <= 7 * (result - old(s.pos)) + 170
 
 //@ func parseUString
 //@   requires wfS(s) && s.pos < s.length && wordAccept(s.input[s.pos]) != 1
 //@   modifies s.current.*, s.pos
-//@   ensures  [C01 C16] @lex wfS(s) && stepOK(s, old(s.pos), result) && s.current.category != 0
-//@   ensures  [C18] @core old(s.pos) + 2 < s.length && s.input[old(s.pos)+1] == '&' && s.input[old(s.pos)+2] == '\'' ==>
+//@   ensures  [C01 C16 C06] @lex wfS(s) && stepOK(s, old(s.pos), result) && s.current.category != 0
+//@   ensures  [C18 C06] @core old(s.pos) + 2 < s.length && s.input[old(s.pos)+1] == '&' && s.input[old(s.pos)+2] == '\'' ==>
 //@                 s.current.category == sqliTokenTypeString && s.current.pos == old(s.pos) + 3 && s.current.strOpen == 'u' &&
 //@                 s.current.len == min(coreEnd(s.input, old(s.pos) + 2, 1, '\'') - (old(s.pos) + 3), 31) &&
 //@                 s.current.strClose == (coreEnd(s.input, old(s.pos) + 2, 1, '\'') < s.length ? 'u' : 0) &&
@@ -803,8 +804,8 @@ package libinjection
 //@ func parseQStringCore
 //@   requires wfS(s) && s.pos < s.length && wordAccept(s.input[s.pos]) != 1 && (offset == 0 || offset == 1)
 //@   modifies s.current.*
-//@   ensures  [C01 C16] @lex lexOK(s, result)
-//@   ensures  [C18] @first_terminator let q = old(s.pos) + offset in
+//@   ensures  [C01 C16 C06] @lex lexOK(s, result)
+//@   ensures  [C18 C06] @first_terminator let q = old(s.pos) + offset in
 //@                 (q + 2 < s.length && (s.input[q] == 'q' || s.input[q] == 'Q') && s.input[q+1] == '\'' && s.input[q+2] >= 33) ==>
 //@                 s.current.category == sqliTokenTypeString && s.current.strOpen == 'q' && s.current.pos == q + 3 &&
 //@                 (s.current.strClose == 'q' || s.current.strClose == 0) &&
@@ -817,37 +818,37 @@ package libinjection
 //@ func parseQString
 //@   requires wfS(s) && s.pos < s.length && wordAccept(s.input[s.pos]) != 1
 //@   modifies s.current.*
-//@   ensures  [C01 C16] @lex lexOK(s, result)
+//@   ensures  [C01 C16 C06] @lex lexOK(s, result)
 //@   cost     <= 7 * (result - old(s.pos)) + 5024
 
 //@ func parseNqString
 //@   requires wfS(s) && s.pos < s.length && wordAccept(s.input[s.pos]) != 1
 //@   modifies s.current.*
-//@   ensures  [C01 C16] @lex lexOK(s, result)
-//@   ensures  [C18] @core old(s.pos) + 2 < s.length && s.input[old(s.pos)+1] == '\'' ==> corePost(s.current, s.input, old(s.pos), 2, '\'', result) && s.current.category == sqliTokenTypeString
+//@   ensures  [C01 C16 C06] @lex lexOK(s, result)
+//@   ensures  [C18 C06] @core old(s.pos) + 2 < s.length && s.input[old(s.pos)+1] == '\'' ==> corePost(s.current, s.input, old(s.pos), 2, '\'', result) && s.current.category == sqliTokenTypeString
 //@   cost     <= 7 * (result - old(s.pos)) + 5030
 
 //@ func parseXString
 //@   requires wfS(s) && s.pos < s.length && wordAccept(s.input[s.pos]) != 1
 //@   modifies s.current.*
-//@   ensures  [C01 C16] @lex lexOK(s, result)
+//@   ensures  [C01 C16 C06] @lex lexOK(s, result)
 
 //@ func parseBString
 //@   requires wfS(s) && s.pos < s.length && wordAccept(s.input[s.pos]) != 1
 //@   modifies s.current.*
-//@   ensures  [C01 C16] @lex lexOK(s, result)
+//@   ensures  [C01 C16 C06] @lex lexOK(s, result)
 
 //@ func parseEString
 //@   requires wfS(s) && s.pos < s.length && wordAccept(s.input[s.pos]) != 1
 //@   modifies s.current.*
-//@   ensures  [C01 C16] @lex lexOK(s, result)
-//@   ensures  [C18] @core old(s.pos) + 2 < s.length && s.input[old(s.pos)+1] == '\'' ==> corePost(s.current, s.input, old(s.pos), 2, '\'', result) && s.current.category == sqliTokenTypeString
+//@   ensures  [C01 C16 C06] @lex lexOK(s, result)
+//@   ensures  [C18 C06] @core old(s.pos) + 2 < s.length && s.input[old(s.pos)+1] == '\'' ==> corePost(s.current, s.input, old(s.pos), 2, '\'', result) && s.current.category == sqliTokenTypeString
 //@   cost     <= 7 * (result - old(s.pos)) + 5010
 
 //@ func parseBWord
 //@   requires wfS(s) && s.pos < s.length
 //@   modifies s.current.category, s.current.pos, s.current.len, s.current.val
-//@   ensures  [C01 C16] @lex lexOK(s, result)
+//@   ensures  [C01 C16 C06] @lex lexOK(s, result)
 //@   cost     <= (result - old(s.pos)) + 8
 
 // ---- scanner state
@@ -868,9 +869,9 @@ package libinjection
 //@   requires wfS(s) && statsOK(s)
 //@   modifies s.pos, s.statsTokens, s.statsCommentDDX, s.statsCommentHash, s.current.*
 //@   ensures  wfS(s) && statsOK(s) && sameScan(s) && old(s.pos) <= s.pos && s.statsFolds == old(s.statsFolds)
-//@   ensures  [C01 C16] @step result ==> stepOK(s, old(s.pos), s.pos) && s.current.category != 0 && s.statsTokens == old(s.statsTokens) + 1
-//@   ensures  [C01 C16] @end !result ==> (s.length == 0 || s.pos == s.length) && s.statsTokens == old(s.statsTokens)
-//@   ensures  [C18] @virtual old(s.pos) == 0 && (s.flags & 6) != 0 && s.length > 0 ==>
+//@   ensures  [C01 C16 C06] @step result ==> stepOK(s, old(s.pos), s.pos) && s.current.category != 0 && s.statsTokens == old(s.statsTokens) + 1
+//@   ensures  [C01 C16 C06] @end !result ==> (s.length == 0 || s.pos == s.length) && s.statsTokens == old(s.statsTokens)
+//@   ensures  [C18 C06] @virtual old(s.pos) == 0 && (s.flags & 6) != 0 && s.length > 0 ==>
 //@                 result && corePost(s.current, s.input, 0, 0, ((s.flags & 2) != 0 ? '\'' : '"'), s.pos) && s.current.category == sqliTokenTypeString
 //@   loop 1 invariant wfS(s) && statsOK(s) && sameScan(s) && old(s.pos) <= s.pos && zeroT(s.current) && s.statsTokens == old(s.statsTokens) && s.statsFolds == old(s.statsFolds)
 //@   loop 1 decreases s.length - s.pos
@@ -945,8 +946,8 @@ package libinjection
 //@ func (*sqliState).sqliFingerprint
 //@   modifies s.*, s.tokenVec[*].*
 //@   ensures  wfS0(s) && statsOK(s) && aliases(s.input, old(s.input)) && s.length == len(s.input) && s.flags == (flags == 0 ? 9 : flags)
-//@   ensures  [C01 C08] @length len(s.fingerprint) <= 5 && aliases(result, s.fingerprint)
-//@   ensures  [C01 C08] @fp evilFP(s) || fpOK(s)
+//@   ensures  [C01 C08 C06] @length len(s.fingerprint) <= 5 && aliases(result, s.fingerprint)
+//@   ensures  [C01 C08 C06] @fp evilFP(s) || fpOK(s)
 //@   justify  afterReset
 //@   defines  [C08 C12] @pass stateOf(s) == ST(old(s.input), flags == 0 ? 9 : flags) && aliases(s.fingerprint, FP(old(s.input), flags == 0 ? 9 : flags)) &&
 //@                 s.statsCommentDDX == DDX(old(s.input), flags == 0 ? 9 : flags) && s.statsCommentHash == HASH(old(s.input), flags == 0 ? 9 : flags)
@@ -963,8 +964,8 @@ package libinjection
 //@   ensures  [C01] @two result && len(s.fingerprint) == 2 ==> up(s.fingerprint[1]) == 'C' || up(s.fingerprint[1]) == 'U'
 //@   justify  readsState
 //@   defines  [C08 C12] @blk result == BLK(s.fingerprint)
-//@   ensures  [C08] @member len(s.fingerprint) >= 1 ==> (result <==> KWU(local(fp)) == sqliTokenTypeFingerprint)
-//@   ensures  [C08] @built len(s.fingerprint) >= 1 ==> len(local(fp)) == len(s.fingerprint) + 1 && local(fp)[0] == '0' &&
+//@   ensures  [C08 C06] @member len(s.fingerprint) >= 1 ==> (result <==> KWU(local(fp)) == sqliTokenTypeFingerprint)
+//@   ensures  [C08 C06] @built len(s.fingerprint) >= 1 ==> len(local(fp)) == len(s.fingerprint) + 1 && local(fp)[0] == '0' &&
 //@                 (forall j in [0, len(s.fingerprint)): local(fp)[j + 1] == up(s.fingerprint[j]))
 //@   loop 1 invariant 0 <= i && i <= length && length == len(s.fingerprint) && len(fp) == i + 1 && fp[0] == '0'
 //@   loop 1 invariant [C01] forall j in [0, i): fp[j + 1] == up(s.fingerprint[j])
@@ -997,13 +998,13 @@ package libinjection
 //@   modifies s.*, s.tokenVec[*].*
 //@   ensures  aliases(s.input, old(s.input))
 //@   ensures  [C08] @fingerprint result ==> 1 <= len(s.fingerprint) && len(s.fingerprint) <= 5 && (evilFP(s) || fpOK(s)) && BLK(s.fingerprint)
-//@   ensures  [C12] @cascade result == cascade(old(s.input))
-//@   ensures  [C08 C12] @first result ==> cascFP(old(s.input), s.fingerprint)
+//@   ensures  [C12 C06] @cascade result == cascade(old(s.input))
+//@   ensures  [C08 C12 C06] @first result ==> cascFP(old(s.input), s.fingerprint)
 
 //@ func IsSQLi
 //@   modifies nothing
 //@   ensures  [C08] @consistent (result0 ==> 1 <= len(result1) && len(result1) <= 5) && (!result0 ==> len(result1) == 0)
 //@   ensures  [C08] @alphabet result0 ==> forall i in [0, len(result1)): inSigma(result1[i]) && (result1[i] == sqliTokenTypeComment ==> i == len(result1) - 1)
-//@   ensures  [C08] @member result0 ==> BLK(result1)
-//@   ensures  [C12] @cascade result0 == cascade(input)
-//@   ensures  [C08 C12] @first result0 ==> cascFP(input, result1)
+//@   ensures  [C08 C06] @member result0 ==> BLK(result1)
+//@   ensures  [C12 C06] @cascade result0 == cascade(input)
+//@   ensures  [C08 C12 C06] @first result0 ==> cascFP(input, result1)
